@@ -361,7 +361,7 @@ pub fn check_source(src: &str, known: &Known) -> Outcome {
 }
 
 pub fn replay_any(name: &str, case: &Value, known: &Known) -> Option<Outcome> {
-    if name == "fuzz-source" {
+    if name == "fuzz-source" || name == "repo-corpus" {
         return Some(check_source(case.get("source")?.as_str()?, known));
     }
     if name == "project-trees" {
@@ -374,6 +374,9 @@ pub fn replay_any(name: &str, case: &Value, known: &Known) -> Option<Outcome> {
 
 pub fn run(ctx: &Ctx) -> i32 {
     ctx.run_replays(|c, case| replay_any(c, case, &ctx.known));
+    // the repository's own programs (a fifth of them are rejected on purpose by its tests)
+    let corpus: Vec<Value> = crate::util::corpus_programs().into_iter().map(|s| json!({"source": s})).collect();
+    ctx.enumerate("repo-corpus", corpus, |c| check_source(c["source"].as_str().unwrap_or(""), &ctx.known));
     ctx.tape_search("fault-injection", ctx.n(30_000, 1_000_000), 400, gen_case, |c| check(c, &ctx.known));
     ctx.tape_search("project-trees", ctx.n(2_000, 40_000), 40, gen_tree_case, |c| check_tree(c, &ctx.known));
     if !ctx.quick() {
